@@ -46,7 +46,7 @@ CLAIMED = {
          "JD/MJD in GNSS scales and TT, JD in ET/TDB: not asserted (denotation undocumented / excluded by the statement).",
          "DESIGN.md section 6 C10"),
  "C11": (PBT + " + exhaustive spelling table: integer decomposition and rendering model",
-         "Generated durations up to 10 000 years and, one case in eleven, over the whole representable range: decompose / subdivision / Epoch::hours().. vs integer decomposition, Display vs model string, from_str(Display), Display with format flags, serde_json (from_str / from_value / from_reader / escaped) and a non-human-readable serde format round trip identically; grammar-generated unit text over every spelling and offsets vs sum of trunc(fl(value x unit)).",
+         "Generated durations up to 10 000 years and, one case in eleven, over the whole representable range: decompose / subdivision / Epoch::hours().. vs integer decomposition, Display vs model string, from_str(Display), Display with format flags, serde_json (from_str / from_value / from_reader / escaped) and a non-human-readable serde format round trip identically; grammar-generated unit text over every spelling (whole-number groups exact, decimal fractions trunc(fl(value x unit))) and offsets.",
          "Sign of decompose() only required negative for negative durations (suite pins 0 for small positive).",
          "DESIGN.md section 6 C11"),
  "C12": (PBT + ": chronological order of model instants on the TAI axis",
